@@ -25,3 +25,28 @@ Theorem C19_rooted_survives : forall (g : graph) (roots S : list nat),
   forall fuel live, (forall v, In v S -> In v live) -> forall v, In v S -> In v (reclaim fuel g roots live).
 Proof. exact rooted_survives. Qed.
 Print Assumptions C19_rooted_survives.
+
+(* T4: the COMPLETE characterisation of what reference counting keeps alive: a node survives exactly when it belongs to a supported
+   set - every member referenced from outside (a root: something the caller still holds) or by another member.  Supported sets are
+   what is reachable from the roots, and reference cycles with whatever hangs from them; nothing else survives. *)
+Theorem C19_survivors_are_the_greatest_supported_set : forall (g : graph) (roots : list nat) (v : nat),
+  In v (survivors g roots) <-> exists S, supported g roots S /\ In v S.
+Proof. exact survivors_are_the_greatest_supported_set. Qed.
+Print Assumptions C19_survivors_are_the_greatest_supported_set.
+
+(* T5: once the caller holds nothing, a call keeps tensors alive exactly when the references it created contain a supported set *)
+Theorem C19_nothing_survives_iff_no_supported_set : forall (g : graph),
+  survivors g [] = [] <-> forall S, supported g [] S -> S = [].
+Proof. exact nothing_survives_iff_no_supported_set. Qed.
+Print Assumptions C19_nothing_survives_iff_no_supported_set.
+
+(* non-vacuity: a two-cycle with a tail is supported without roots; a chain is not *)
+Example C19_cycle_is_supported : supported [(0, [1]); (1, [0; 2]); (2, [])] [] [0; 1; 2].
+Proof.
+intros v Hv; cbn in Hv. destruct Hv as [<-|[<-|[<-|[]]]]; (split; [cbn; tauto|right]).
+- exists 1; split; cbn; tauto.
+- exists 0; split; cbn; tauto.
+- exists 1; split; cbn; tauto.
+Qed.
+Example C19_chain_is_reclaimed : survivors [(0, [1]); (1, [2]); (2, [])] [] = [].
+Proof. reflexivity. Qed.
